@@ -1273,4 +1273,159 @@ theorem evalScript_multisig (c : Ctx) (fl : Flags) (m : Nat) (keys sigs : List B
     · simp
 
 
+/-- bare m-of-n multisig, `OP_0 <sigs>` against `OP_m <keys> OP_n OP_CHECKMULTISIG` -/
+theorem verify_multisig (c : Ctx) (fl : Flags) (m : Nat) (keys sigs : List Bytes)
+    (hfl : fl.admissible = true) (hidx : 0 ≤ c.inIdx) (hm1 : 1 ≤ m) (hmn : m ≤ keys.length)
+    (hn : keys.length ≤ 16) (hsl : sigs.length = m)
+    (hk : ∀ k ∈ keys, k.length < 0x4c) (hs : ∀ s ∈ sigs, s.length < 0x4c)
+    (hne : ∀ s ∈ sigs, ∀ k ∈ keys, s.length ≠ k.length) :
+    verifyScript c fl (multisigScriptSig sigs) (multisigScript m keys) =
+      if greedy (chkSig c (multisigScript m keys)) sigs.reverse keys.reverse then .ok () else .error .verify := by
+  have hp : isP2sh (multisigScript m keys) = false := by
+    apply isP2sh_false_of_head
+    simp only [multisigScript, List.getElem?_cons_zero, ne_eq, Option.some.injEq]
+    intro h
+    have := congrArg UInt8.toNat h
+    rw [opN_toNat m (by omega)] at this
+    simp at this
+    omega
+  have h1 : evalScript c fl [] (multisigScriptSig sigs) = .ok (sigs.reverse ++ [[]]) := by
+    have := evalScript_pushAll c fl ([] :: sigs) (by
+      intro d hd
+      simp only [List.mem_cons] at hd
+      rcases hd with rfl | hd
+      · simp
+      · exact hs d hd) (by simp; omega)
+    simpa [multisigScriptSig] using this
+  rw [verifyScript_plain c fl _ _ _ _ h1
+    (evalScript_multisig c fl m keys sigs hidx hm1 hmn hn hsl hk hs hne) hp]
+  cases greedy (chkSig c (multisigScript m keys)) sigs.reverse keys.reverse
+  · simp [checkTopTrue_empty, bind, Except.bind]
+  · simp [checkTopTrue_one, verifyCleanStack_one fl _ hfl, bind, Except.bind]
+
+/-! ### pushes of up to 65535 bytes (`CScriptOp.encode_op_pushdata`) -/
+
+def pushEnc (d : Bytes) : Bytes :=
+  if d.length < 0x4c then UInt8.ofNat d.length :: d
+  else if d.length ≤ 0xff then 0x4c :: UInt8.ofNat d.length :: d
+  else 0x4d :: UInt8.ofNat (d.length % 256) :: UInt8.ofNat (d.length / 256) :: d
+
+def pushOpcode (d : Bytes) : Nat :=
+  if d.length < 0x4c then d.length else if d.length ≤ 0xff then 0x4c else 0x4d
+
+theorem pushOpcode_le (d : Bytes) : pushOpcode d ≤ 0x4d := by
+  unfold pushOpcode; split
+  · omega
+  · split <;> omega
+
+theorem rawStep_pushEnc (idx : Nat) (d rest : Bytes) (h : d.length ≤ 0xffff) :
+    rawStep idx (pushEnc d ++ rest) = some (.op ⟨pushOpcode d, some d, idx⟩ rest) := by
+  unfold pushEnc pushOpcode
+  by_cases h1 : d.length < 0x4c
+  · simp only [h1, if_true]
+    exact rawStep_push idx d rest h1
+  · simp only [h1, if_false]
+    by_cases h2 : d.length ≤ 0xff
+    · simp only [h2, if_true]
+      have hb : (UInt8.ofNat d.length).toNat = d.length := toNat_ofNat_lt (by omega)
+      simp [rawStep, hb]
+    · simp only [h2, if_false]
+      have hb0 : (UInt8.ofNat (d.length % 256)).toNat = d.length % 256 := toNat_ofNat_lt (by omega)
+      have hb1 : (UInt8.ofNat (d.length / 256)).toNat = d.length / 256 := toNat_ofNat_lt (by omega)
+      have e : d.length % 256 + d.length / 256 * 256 = d.length := by omega
+      simp [rawStep, hb0, hb1, e]
+
+theorem pushEnc_length_le (d : Bytes) : (pushEnc d).length ≤ d.length + 3 := by
+  unfold pushEnc; split
+  · simp
+  · split <;> simp
+
+theorem rawIterFrom_pushEnc (idx : Nat) (d rest : Bytes) (h : d.length ≤ 0xffff) :
+    rawIterFrom idx (pushEnc d ++ rest) =
+      (⟨pushOpcode d, some d, idx⟩ :: (rawIterFrom (idx + (pushEnc d).length) rest).1,
+       (rawIterFrom (idx + (pushEnc d).length) rest).2) := by
+  rw [rawIterFrom_op (rawStep_pushEnc idx d rest h)]
+  have : (pushEnc d ++ rest).length - rest.length = (pushEnc d).length := by simp
+  rw [this]
+
+/-- one loop iteration for any data push -/
+theorem step_pushop (c : Ctx) (fl : Flags) (script : Bytes) (n idx : Nat) (d : Bytes)
+    (stack alt : List Bytes) (pb nops : Nat)
+    (hn : n ≤ 0x4e) (hd : d.length ≤ 520) (hsz : stack.length + 1 + alt.length ≤ 1000) :
+    step c fl script ⟨n, some d, idx⟩ ⟨stack, alt, [], pb, nops⟩ = .ok ⟨d :: stack, alt, [], pb, nops⟩ := by
+  have h1 : n ∉ disabledOpcodes := by
+    simp only [disabledOpcodes, List.mem_cons, List.not_mem_nil, or_false]; omega
+  have h3 : ¬ d.length > MAX_SCRIPT_ELEMENT_SIZE := by simp only [MAX_SCRIPT_ELEMENT_SIZE]; omega
+  have h4 : ¬ (d :: stack).length + alt.length > MAX_STACK_SIZE := by
+    simp only [MAX_STACK_SIZE, List.length_cons]; omega
+  unfold step
+  simp only [h1, if_false, countOp_push n _ (by omega : n ≤ 0x60), bind, Except.bind, dispatch, hn, if_true, h3,
+    checkExec, List.all_nil, h4]
+
+
+/-- `<pushes> <serialised script>`: the scriptSig shape of a P2SH spend -/
+theorem rawIter_pushAll_enc (ds : List Bytes) (r : Bytes) (h : ∀ d ∈ ds, d.length < 0x4c) (hr : r.length ≤ 0xffff) :
+    rawIter (pushAll ds ++ pushEnc r) =
+      (pushOps 0 ds ++ [⟨pushOpcode r, some r, 0 + (pushAll ds).length⟩], none) := by
+  unfold rawIter
+  have e := rawIterFrom_pushEnc (0 + (pushAll ds).length) r [] hr
+  rw [List.append_nil] at e
+  rw [rawIterFrom_pushAll _ ds 0 h, e, rawIterFrom_nil]
+
+theorem evalScript_pushAll_enc (c : Ctx) (fl : Flags) (ds : List Bytes) (r : Bytes)
+    (h : ∀ d ∈ ds, d.length < 0x4c) (hn : ds.length ≤ 100) (hr : r.length ≤ 520) :
+    evalScript c fl [] (pushAll ds ++ pushEnc r) = .ok (r :: ds.reverse) := by
+  have hl : (pushAll ds ++ pushEnc r).length ≤ 10000 := by
+    have := pushAll_length_le ds h
+    have := pushEnc_length_le r
+    simp only [List.length_append]; omega
+  exact evalScript_of_loop c fl [] _ _ ⟨r :: ds.reverse, [], [], 0, 0⟩ hl
+    (rawIter_pushAll_enc ds r h (by omega))
+    (by
+      rw [loop_pushOps c fl _ _ [] 0 0 ds 0 [] h (by simp; omega)]
+      rw [loop_cons _ _ _ _ _ _ _ (step_pushop c fl _ (pushOpcode r) _ r _ [] 0 0
+        (by have := pushOpcode_le r; omega) hr (by simp; omega)), loop_nil]
+      simp) rfl
+
+theorem isPushOnly_pushAll_enc (ds : List Bytes) (r : Bytes) (h : ∀ d ∈ ds, d.length < 0x4c)
+    (hr : r.length ≤ 0xffff) : isPushOnly (pushAll ds ++ pushEnc r) = true := by
+  apply isPushOnly_of _ _ (rawIter_pushAll_enc ds r h hr)
+  intro o ho
+  simp only [List.mem_append, List.mem_cons, List.not_mem_nil, or_false] at ho
+  rcases ho with ho | rfl
+  · obtain ⟨_, _, _, d, hd, e⟩ := pushOps_facts [] ds [] h o ho
+    have := h d hd
+    omega
+  · have := pushOpcode_le r
+    simp only; omega
+
+/-- P2SH-wrapped m-of-n multisig: `OP_0 <sigs> <redeem>` against `HASH160 <hash160 redeem> EQUAL` -/
+theorem verify_p2sh_multisig (c : Ctx) (fl : Flags) (m : Nat) (keys sigs : List Bytes)
+    (hfl : fl.admissible = true) (hp : fl.p2sh = true) (hidx : 0 ≤ c.inIdx) (hm1 : 1 ≤ m) (hmn : m ≤ keys.length)
+    (hn : keys.length ≤ 16) (hsl : sigs.length = m)
+    (hk : ∀ k ∈ keys, k.length < 0x4c) (hs : ∀ s ∈ sigs, s.length < 0x4c)
+    (hne : ∀ s ∈ sigs, ∀ k ∈ keys, s.length ≠ k.length)
+    (hrl : (multisigScript m keys).length ≤ 520) (hhl : ∀ x, (c.env.hashes.hash160 x).length = 20) :
+    let redeem := multisigScript m keys
+    verifyScript c fl (multisigScriptSig sigs ++ pushEnc redeem) (p2shScript (c.env.hashes.hash160 redeem)) =
+      if greedy (chkSig c redeem) sigs.reverse keys.reverse then .ok () else .error .verify := by
+  intro redeem
+  have hds : ∀ d ∈ ([] : Bytes) :: sigs, d.length < 0x4c := by
+    intro d hd
+    simp only [List.mem_cons] at hd
+    rcases hd with rfl | hd
+    · simp
+    · exact hs d hd
+  have h1 : evalScript c fl [] (multisigScriptSig sigs ++ pushEnc redeem) = .ok (redeem :: (sigs.reverse ++ [[]])) := by
+    have := evalScript_pushAll_enc c fl ([] :: sigs) redeem hds (by simp; omega) hrl
+    simpa [multisigScriptSig] using this
+  have hpo : isPushOnly (multisigScriptSig sigs ++ pushEnc redeem) = true :=
+    isPushOnly_pushAll_enc _ _ hds (by show (multisigScript m keys).length ≤ 0xffff; omega)
+  rw [verifyScript_p2sh c fl _ redeem (sigs.reverse ++ [[]]) _ hp hpo (hhl redeem) (by simp; omega) h1
+    (evalScript_multisig c fl m keys sigs hidx hm1 hmn hn hsl hk hs hne)]
+  cases greedy (chkSig c redeem) sigs.reverse keys.reverse
+  · simp [checkTopTrue_empty, bind, Except.bind]
+  · simp [checkTopTrue_one, verifyCleanStack_one fl _ hfl, bind, Except.bind]
+
+
 end BtcVerif.C05T
